@@ -121,6 +121,22 @@ Proof.
     destruct (complete && side_eqb (br bd) (SSome curr))%bool; reflexivity.
 Qed.
 
+Lemma side_eqb_sym (a b : side) : side_eqb a b = side_eqb b a.
+Proof. destruct a as [x|], b as [y|]; cbn [side_eqb]; try reflexivity. apply Z.eqb_sym. Qed.
+
+(** The proof below does not follow the shape of the function: it fixes what the two look-ups find, then
+    decides every comparison and compares the bytes written and the index returned. *)
+Ltac pb_crunch g bd curr trunc complete :=
+  rewrite ?tie_ub_matches; cbn [bind opt_unwrap];
+  repeat match goal with
+         | |- context [side_eqb (SSome curr) ?x] => rewrite (side_eqb_sym (SSome curr) x)
+         end;
+  destruct trunc, complete, (1 <? curr), (side_eqb (bl bd) (SSome curr)), (side_eqb (br bd) (SSome curr)),
+           (gs_join g), (blast bd), (gs_repl g);
+  cbn [bind opt_unwrap andb negb app length];
+  rewrite ?app_nil_r, <- ?app_assoc; cbn [app];
+  first [reflexivity | (repeat f_equal; lia)].
+
 Theorem tie_print_bof : forall (g : gsopt) (i : nat) (curr : Z) (chunk : bytes) (a b : nat) (trunc complete : bool),
   Z.of_nat i + 2 <= usize_max -> (a <= b)%nat -> (b <= length chunk)%nat ->
   let its := skipn i (items (gs_bounds g)) in
@@ -130,33 +146,31 @@ Theorem tie_print_bof : forall (g : gsopt) (i : nat) (curr : Z) (chunk : bytes) 
     Ret (Some (Z.of_nat (i + (length its - length its'))), out).
 Proof.
   intros g i curr chunk a b trunc complete Hi Hab Hb its Hm.
-  rewrite print_bof_split.
   assert (E0 : nth_error (items (gs_bounds g)) i = hd_error its) by apply nth_skipn.
-  destruct its as [|x its1] eqn:E; cbn [hd_error] in E0.
-  - (* nothing pending *)
-    transitivity (bound_code g [] i curr chunk a b trunc complete (nth_error (items (gs_bounds g)) i)).
-    { cbv beta delta [gen_print_bof bound_code] iota zeta. rewrite !Nat2Z.id, E0. reflexivity. }
-    rewrite (bound_part g [] i curr chunk a b trunc complete ltac:(lia) Hab Hb).
-    2:{ fold its. rewrite E. discriminate. }
-    fold its. rewrite E. reflexivity.
+  assert (E1 : nth_error (items (gs_bounds g)) (S i) = hd_error (tl its)).
+  { rewrite nth_skipn, skipn_S_tl. reflexivity. }
+  cbv beta delta [gen_print_bof] iota zeta. rewrite !Nat2Z.id.
+  rewrite ?(usize_add_nat i) by lia. cbn [bind]. rewrite ?Nat2Z.id.
+  rewrite ?(str_between_nat chunk a b Hab Hb). 
+  unfold print_bof, sdelim, so_of. cbn [s_repl s_delim s_join].
+  destruct its as [|x its1] eqn:E; cbn [hd_error tl] in E0, E1.
+  - rewrite ?E0, ?E1. cbn [length app]; rewrite ?app_nil_r; first [reflexivity | (repeat f_equal; lia)].
   - destruct x as [bd|f].
-    + transitivity (bound_code g [] i curr chunk a b trunc complete (nth_error (items (gs_bounds g)) i)).
-      { cbv beta delta [gen_print_bof bound_code] iota zeta. rewrite !Nat2Z.id, E0. reflexivity. }
-      rewrite (bound_part g [] i curr chunk a b trunc complete ltac:(lia) Hab Hb).
-      2:{ fold its. rewrite E. intros bd' H. injection H as <-. apply Hm. reflexivity. }
-      fold its. rewrite E. destruct (bound_model g (Bound bd :: its1) curr (slice chunk a b) trunc complete). reflexivity.
-    + assert (E1 : skipn (S i) (items (gs_bounds g)) = its1) by (rewrite skipn_S_tl; fold its; rewrite E; reflexivity).
-      transitivity (bound_code g ([] ++ f) (S i) curr chunk a b trunc complete (nth_error (items (gs_bounds g)) (S i))).
-      { cbv beta delta [gen_print_bof bound_code] iota zeta. rewrite !Nat2Z.id, E0. cbv iota beta.
-        rewrite (usize_add_nat i) by lia. cbn [bind]. rewrite Nat2Z.id. reflexivity. }
-      rewrite (bound_part g ([] ++ f) (S i) curr chunk a b trunc complete ltac:(lia) Hab Hb).
-      2:{ rewrite E1. intros bd' H. apply Hm. destruct its1 as [|[b0|f0] r0]; cbn in H; try discriminate. injection H as <-. reflexivity. }
-      rewrite E1. destruct (bound_model g its1 curr (slice chunk a b) trunc complete) as [o2 its'] eqn:Eb.
-      cbn [app length]. f_equal. f_equal. f_equal.
-      (* the model keeps a suffix of the pending items *)
-      assert (Hl : (length its' <= length its1)%nat).
-      { unfold bound_model in Eb. destruct its1 as [|[b0|f0] r0]; try (injection Eb as <- <-; lia).
-        destruct (matches b0 curr) as [[|]|]; try (injection Eb as <- <-; lia).
-        destruct (complete && side_eqb (br b0) (SSome curr))%bool; injection Eb as <- <-; cbn [length]; lia. }
-      lia.
+    + rewrite ?E0. cbv iota beta. specialize (Hm bd eq_refl).
+      rewrite ?tie_ub_matches. cbn [bind].
+      destruct (matches bd curr) as [[|]|] eqn:Em; [| |contradiction]; cbn [opt_unwrap bind negb]; cbv iota.
+      * rewrite ?(str_between_nat chunk a b Hab Hb). cbn [bind]. rewrite ?tie_print_field. cbn [bind].
+        rewrite ?(usize_add_nat i) by lia. cbn [bind].
+        pb_crunch g bd curr trunc complete.
+      * cbn [length app]; rewrite ?app_nil_r; first [reflexivity | (repeat f_equal; lia)].
+    + rewrite ?E0. cbv iota beta. rewrite ?(usize_add_nat i) by lia. cbn [bind]. rewrite ?Nat2Z.id, ?E1.
+      destruct its1 as [|[bd|f'] r]; cbn [hd_error]; cbv iota beta.
+      * cbn [length app]; rewrite ?app_nil_r; first [reflexivity | (repeat f_equal; lia)].
+      * specialize (Hm bd eq_refl). rewrite ?tie_ub_matches. cbn [bind].
+        destruct (matches bd curr) as [[|]|] eqn:Em; [| |contradiction]; cbn [opt_unwrap bind negb]; cbv iota.
+        -- rewrite ?(str_between_nat chunk a b Hab Hb). cbn [bind]. rewrite ?tie_print_field. cbn [bind].
+           rewrite ?(usize_add_nat (S i)) by lia. cbn [bind].
+           pb_crunch g bd curr trunc complete.
+        -- cbn [length app]; rewrite ?app_nil_r; first [reflexivity | (repeat f_equal; lia)].
+      * cbn [length app]; rewrite ?app_nil_r; first [reflexivity | (repeat f_equal; lia)].
 Qed.
